@@ -183,6 +183,8 @@ fn child_main(verbose: bool) -> ! {
             v
         };
         let n = rd_u32(&mut pos);
+        // the canonical text of a decode is harness memory: reserved once, outside every measured window
+        let mut dump_buf = String::with_capacity(8 << 20);
         for idx in 0..n {
             let comp = input[pos];
             let feat = input[pos + 1];
@@ -204,7 +206,9 @@ fn child_main(verbose: bool) -> ! {
             let started = std::time::Instant::now();
             raw_write(&format!("I {idx}\n"));
             decode::counting_begin(idx, frame.len());
-            let res = std::panic::catch_unwind(std::panic::AssertUnwindSafe(|| decode::decode(frame, comp, feat, opts, cached.as_ref())));
+            dump_buf.clear();
+            let buf = std::mem::take(&mut dump_buf);
+            let res = std::panic::catch_unwind(std::panic::AssertUnwindSafe(|| decode::decode(frame, comp, feat, opts, cached.as_ref(), buf)));
             decode::counting_pause();
             CHILD_CASE_STARTED_MS.store(u64::MAX, Ordering::Relaxed);
             let micros = started.elapsed().as_micros();
@@ -220,6 +224,7 @@ fn child_main(verbose: bool) -> ! {
                             raw_write(&format!("D {l}\n"));
                         }
                     }
+                    dump_buf = d.dump;
                 }
                 Err(e) => {
                     let msg = if let Some(s) = e.downcast_ref::<&str>() {
@@ -231,6 +236,7 @@ fn child_main(verbose: bool) -> ! {
                     };
                     let msg: String = msg.replace('\n', " ").chars().take(200).collect();
                     raw_write(&format!("P {idx} {} | {msg}\nR {idx} 2 {stage} {max_single} {peak} 0 0 0 {micros}\n", vcore::last_panic_location()));
+                    dump_buf = String::with_capacity(8 << 20);
                 }
             }
         }
@@ -260,14 +266,17 @@ struct Outcome {
     micros: u64,
     /// oversize allocation report: (size, "single"|"total", stage, allocation site)
     oversize: Option<(u64, String, u32, String)>,
+    /// the cap in force when the oversize request was made
+    oversize_cap: u64,
     detail: String,
     dump: Option<String>,
 }
 
-fn parse_child_output(stdout: &[u8], n: usize) -> (Vec<Option<Outcome>>, BTreeMap<usize, (u64, String, u32, String)>, BTreeMap<usize, String>, Option<(usize, u32)>, BTreeMap<usize, String>, BTreeMap<usize, u32>) {
+fn parse_child_output(stdout: &[u8], n: usize) -> (Vec<Option<Outcome>>, BTreeMap<usize, (u64, String, u32, String)>, BTreeMap<usize, String>, Option<(usize, u32)>, BTreeMap<usize, String>, BTreeMap<usize, u32>, BTreeMap<usize, u64>) {
     let text = String::from_utf8_lossy(stdout);
     let mut recs: Vec<Option<Outcome>> = vec![None; n];
     let mut allocs = BTreeMap::new();
+    let mut caps: BTreeMap<usize, u64> = BTreeMap::new();
     let mut panics = BTreeMap::new();
     let mut timeout = None;
     let mut dumps: BTreeMap<usize, String> = BTreeMap::new();
@@ -302,6 +311,7 @@ fn parse_child_output(stdout: &[u8], n: usize) -> (Vec<Option<Outcome>>, BTreeMa
                 if f.len() >= 4 {
                     let idx: usize = f[0].parse().unwrap_or(usize::MAX);
                     allocs.entry(idx).or_insert((f[2].parse().unwrap_or(0), f[3].to_string(), f[1].parse().unwrap_or(0), format!("stage-{}", decode::stage_name(f[1].parse().unwrap_or(0)))));
+                    caps.entry(idx).or_insert(f.get(4).and_then(|x| x.parse::<u64>().ok()).unwrap_or(0));
                 }
             }
             Some("B") => {
@@ -342,7 +352,7 @@ fn parse_child_output(stdout: &[u8], n: usize) -> (Vec<Option<Outcome>>, BTreeMa
             _ => {}
         }
     }
-    (recs, allocs, panics, timeout, dumps, stages)
+    (recs, allocs, panics, timeout, dumps, stages, caps)
 }
 
 struct Runner {
@@ -364,13 +374,14 @@ impl Runner {
             let wall = Duration::from_millis(600_000 + 200 * slice.len() as u64);
             let args: &[&str] = if verbose { &["--child", "--verbose"] } else { &["--child"] };
             let cr = vcore::sandbox::run_self(args, &input, wall);
-            let (recs, allocs, panics, timeout, mut dumps, stages) = parse_child_output(&cr.stdout, slice.len());
+            let (recs, allocs, panics, timeout, mut dumps, stages, caps) = parse_child_output(&cr.stdout, slice.len());
             let mut done = 0usize;
             for (i, r) in recs.into_iter().enumerate() {
                 match r {
                     Some(mut o) => {
                         if let Some(a) = allocs.get(&i) {
                             o.oversize = Some(a.clone());
+                            o.oversize_cap = caps.get(&i).copied().unwrap_or(0);
                         }
                         if let Some(pm) = panics.get(&i) {
                             o.detail = pm.clone();
@@ -390,6 +401,7 @@ impl Runner {
             let mut o = Outcome { status: 3, ..Default::default() };
             if let Some(a) = allocs.get(&done) {
                 o.oversize = Some(a.clone());
+                o.oversize_cap = caps.get(&done).copied().unwrap_or(0);
                 o.stage = a.2;
             }
             if let Some(st) = stages.get(&done) {
@@ -535,7 +547,7 @@ impl Oracle<'_> {
             return self.judge(c, o2, true);
         }
         let text = if let Some((size, what, st, site)) = &o.oversize {
-            format!("oversize allocation in {site}: {what} request of {size} bytes for {flen} bytes of input (cap {} bytes), stage {}{} on {what_input}", decode::alloc_cap(flen), decode::stage_name(*st), if o.status == 3 { "; request refused -> process abort" } else { "" })
+            format!("oversize allocation in {site}: {what} request of {size} bytes for {flen} bytes of input (cap {} bytes), stage {}{} on {what_input}", o.oversize_cap, decode::stage_name(*st), if o.status == 3 { "; request refused -> process abort" } else { "" })
         } else {
             match o.status {
                 2 => format!("decode panicked at {} on {what_input}", o.detail),
@@ -618,7 +630,11 @@ fn deviation_cases(item: &Item, ext: &Ext, feat: u8, comp: Comp, pairs: u8, type
     let base = |class: &'static str, site: String, origin: String, frame: Arc<Vec<u8>>| Case { frame: FrameSrc::Bytes(frame), comp: frames::comp_code(comp), feat, opts: if typed { decode::OPT_TYPED } else { 0 }, cached: None, expect: None, class, site, origin };
     // every truncation point of the frame as a byte stream (the connection ends early)
     let whole = mutated_frame(ext.flags(), opcode, &w.buf, comp);
-    for cut in 0..whole.len() {
+    // (frames above 4 KiB: 64 evenly spaced cuts plus the first and last 64 positions instead of every position)
+    let cuts_of = |len: usize| -> Vec<usize> {
+        if len <= 4096 { (0..len).collect() } else { (0..64).chain((64..len - 64).step_by(len / 64)).chain(len - 64..len).collect() }
+    };
+    for cut in cuts_of(whole.len()) {
         let mut c = base("truncate-stream", "truncate-stream".into(), format!("{} cut at {cut}/{}", item.name, whole.len()), Arc::new(whole[..cut].to_vec()));
         if cut % 2 == 1 {
             c.opts |= decode::OPT_CHUNKED; // short reads (3 bytes per poll, Pending in between) before the early EOF
@@ -626,7 +642,7 @@ fn deviation_cases(item: &Item, ext: &Ext, feat: u8, comp: Comp, pairs: u8, type
         out.push(c);
     }
     // every truncation point of the body with a consistent header (a peer that sends a short body)
-    for cut in 0..w.buf.len() {
+    for cut in cuts_of(w.buf.len()) {
         out.push(base("truncate-body", "truncate-body".into(), format!("{} body cut at {cut}/{}", item.name, w.buf.len()), mutated_frame(ext.flags(), opcode, &w.buf[..cut], comp)));
     }
     // every field-aware single mutation
@@ -702,6 +718,9 @@ fn cell_content_cases(item: &Item, feat: u8, thorough: bool, out: &mut Vec<Case>
         return;
     }
     let w = resp::encode_ext_body(&Ext::default(), &item.resp, feat & FEAT_MID != 0);
+    if w.buf.len() > 4096 {
+        return;
+    }
     let Some(start) = w.fields.iter().find(|f| f.site == "rows.cell.len").map(|f| f.off) else { return };
     let mk = |origin: String, b: Vec<u8>| Case { frame: FrameSrc::Bytes(mutated_frame(0, p::opcode::RESULT, &b, Comp::None)), comp: 0, feat, opts: decode::OPT_TYPED, cached: None, expect: None, class: "field", site: "rows.cell.content".into(), origin };
     let v32: &[i32] = if thorough { &[0, 1, -1, -2, 0x7fff, 0xffff, i32::MAX, i32::MIN, 0x0100_0000] } else { &[0, -1, 1, i32::MAX, i32::MIN] };
@@ -1082,7 +1101,7 @@ fn main() {
     if unrep > 0 && r.args.extra_value("--only").is_none() {
         vcore::machinery_error(&format!("{unrep} fatal outcomes did not reproduce when the case was re-run alone"));
     }
-    r.set_rule("E-ENUM with deviation bounding. 0 deviations: corpus of well-formed frames of every response kind (ERROR all 19 codes with extras, READY, AUTHENTICATE, SUPPORTED, RESULT void/rows/set_keyspace/prepared/schema_change, EVENT all kinds, AUTH_CHALLENGE/SUCCESS; rows over a depth-2 type alphabet incl. class-string forms and vectors, every metadata flag combination, 0..2 rows, cached-metadata twin for no_metadata) x extension subsets x {none, LZ4, Snappy} x {matches, literal-only} x feature combinations (quick: 4; thorough: all 16), decoded through read_response_frame -> parse_response_body_extensions -> ResponseV2::deserialize (+ legacy Response for events) -> deserialize_metadata -> rows as raw cells, as Row/CqlValue and as every typed tuple of the target alphabet that passes type_check; decoded text must equal the text derived from the cqlref model. 1 deviation: every stream truncation, every body truncation with consistent header, every length/count/flag/id field x {0,1,-1,-2,+1,-1,0x7fff,0xffff,i32::MAX,i32::MIN, bit flips, all type ids / result kinds / opcodes / error codes}, header fields, every offset of the rows content x boundary 4-byte / 8-byte / 1-byte values (counts and lengths inside cell values, extreme scalars; typed targets on), damaged compressed streams (every cut, every byte x 4 values, announced length), bad class strings, type nesting 1e2..1e6 (binary) and 4..7000 (class strings). 2 deviations: field pairs (quick: same region or adjacent, reduced value alphabet; thorough: same region at any distance or any two fields <= 12 apart, full alphabet) and field mutation + body truncation right after the field / right before the end; thorough also repeats the single deviations under 6 feature sets with typed targets. Two-column rows over ordered pairs of the type alphabet (quick: a third; thorough: all). Sampled (labelled): random bodies behind valid headers. Oracle per case in a child process: no panic/abort/signal/stack overflow (2 MiB thread)/more than 4 s of CPU time for one decode; largest single request and peak live bytes <= 64 KiB + 256 x frame length by a counting allocator that reports before the request is served and refuses > 64 MiB. distinct_nontrivial = round trips that matched + deviations rejected with a clean error.");
+    r.set_rule("E-ENUM with deviation bounding. 0 deviations: corpus of well-formed frames of every response kind (ERROR all 19 codes with extras, READY, AUTHENTICATE, SUPPORTED, RESULT void/rows/set_keyspace/prepared/schema_change, EVENT all kinds, AUTH_CHALLENGE/SUCCESS; rows over a depth-2 type alphabet incl. class-string forms and vectors, every metadata flag combination, 0..2 rows, cached-metadata twin for no_metadata) x extension subsets x {none, LZ4, Snappy} x {matches, literal-only} x feature combinations (quick: 4; thorough: all 16), decoded through read_response_frame -> parse_response_body_extensions -> ResponseV2::deserialize (+ legacy Response for events) -> deserialize_metadata -> rows as raw cells, as Row/CqlValue and as every typed tuple of the target alphabet that passes type_check; decoded text must equal the text derived from the cqlref model. 1 deviation: every stream truncation, every body truncation with consistent header, every length/count/flag/id field x {0,1,-1,-2,+1,-1,0x7fff,0xffff,i32::MAX,i32::MIN, bit flips, all type ids / result kinds / opcodes / error codes}, header fields, every offset of the rows content x boundary 4-byte / 8-byte / 1-byte values (counts and lengths inside cell values, extreme scalars; typed targets on), damaged compressed streams (every cut, every byte x 4 values, announced length), bad class strings, type nesting 1e2..1e6 (binary) and 4..7000 (class strings). 2 deviations: field pairs (quick: same region or adjacent, reduced value alphabet; thorough: same region at any distance or any two fields <= 12 apart, full alphabet) and field mutation + body truncation right after the field / right before the end; thorough also repeats the single deviations under 6 feature sets with typed targets. Two-column rows over ordered pairs of the type alphabet (quick: a third; thorough: all). Sampled (labelled): random bodies behind valid headers. Oracle per case in a child process: no panic/abort/signal/stack overflow (2 MiB thread)/more than 4 s of CPU time for one decode; largest single request and peak live bytes above the pre-decode level <= 64 KiB + 256 x frame length (x decompressed body length once a compressed body has been inflated) by a counting allocator that reports before the request is served and refuses > 64 MiB. distinct_nontrivial = round trips that matched + deviations rejected with a clean error.");
     r.set_exhaustive(true);
     r.assume("row iteration is consumer-driven: the harness pulls at most 4096 rows per iterator and stops at the first error; every step is checked");
     r.assume("the decode runs on a 2 MiB thread (tokio worker default), RLIMIT_AS 2 GiB protects the checker only; verdicts come from the counting allocator");
